@@ -29,7 +29,7 @@ type c10Conn struct {
 	closed int
 }
 
-func (c *c10Conn) Close() error        { c.closed++; return nil }
+func (c *c10Conn) Close() error         { c.closed++; return nil }
 func (c *c10Conn) RemoteAddr() net.Addr { return c10Addr{} }
 func (c *c10Conn) LocalAddr() net.Addr  { return c10Addr{} }
 
@@ -39,27 +39,27 @@ func (c10Addr) Network() string { return "tcp" }
 func (c10Addr) String() string  { return "10.0.0.1:7" }
 
 type c10Sess struct {
-	s       *yamux.Session
-	conn    *c10Conn
-	closed  bool
-	closeCh chan struct{}
-	pings   int
+	s         *yamux.Session
+	conn      *c10Conn
+	closed    bool
+	closeCh   chan struct{}
+	pings     int
 	firstPing int // 0 ok, 1 write-timeout, 2 EOF, 3 other, 4 ok but the remote hangs up right after, 5/6 shutdown arrives while the ping is outstanding and the ping then fails / succeeds
 }
 
 type c10Env struct {
-	conns    []*c10Conn
-	sessions map[*yamux.Session]*c10Sess
-	sessList []*c10Sess
-	accepts  chan int // outcome tokens for connection attempts: 0 ok, 1 error
-	dialTimeout chan struct{}
-	lisClosed chan struct{}
-	lisClosedFlag bool
+	conns          []*c10Conn
+	sessions       map[*yamux.Session]*c10Sess
+	sessList       []*c10Sess
+	accepts        chan int // outcome tokens for connection attempts: 0 ok, 1 error
+	dialTimeout    chan struct{}
+	lisClosed      chan struct{}
+	lisClosedFlag  bool
 	sessionOutcome int // next yamux set-up: 0 ok, 1 error
 	pingOutcome    int
-	attempts int
-	shutdown  func() // cancels the provider's context (the harness' shutdown action)
-	cancelled bool
+	attempts       int
+	shutdown       func() // cancels the provider's context (the harness' shutdown action)
+	cancelled      bool
 }
 
 var c10 *c10Env
@@ -190,8 +190,8 @@ func verifStub_sessClose(s *yamux.Session) error {
 	return nil
 }
 func verifStub_sessCloseChan(s *yamux.Session) <-chan struct{} { return c10.sessions[s].closeCh }
-func verifStub_sessIsClosed(s *yamux.Session) bool            { return c10.sessions[s].closed }
-func verifStub_sessRemoteAddr(s *yamux.Session) net.Addr      { return c10Addr{} }
+func verifStub_sessIsClosed(s *yamux.Session) bool             { return c10.sessions[s].closed }
+func verifStub_sessRemoteAddr(s *yamux.Session) net.Addr       { return c10Addr{} }
 
 // remote side kills a session
 func (e *c10Env) remoteClose(cs *c10Sess) {
